@@ -90,10 +90,14 @@ CLAIMS = {
   "note": "NOT decided: the numeric value of any score; float rounding; the PhrasePrefixQuery statistics-provider deviation (observation only).",
   "technique": "who-may-call with signature scan, parameter provenance, value back-trace, impl-map classification",
  },
+ "C14": {
+  "text": "Very narrow: decides only the structural part of 'does not depend on partitioning ... after serialisation'. For each of the 18 merge_fruits(&mut self, other: Self) functions of the intermediate aggregation results: every accumulator leaf (struct field / enum variant field, through aggregation types without their own merge) of `other` is read, the same leaf of `self` is written, data from other.<leaf> reaches self.<leaf> (forward taint), collections are consumed by value; bucket-identity and request-parameter leaves are tabled with reasons. merge_maps and IntermediateAggregationResults::merge_fruits pair equal keys and move the unpaired remainder of `other` into `self`. Every type reachable from IntermediateAggregationResults with derived serde impls serialises every field and its deserialiser fills every field from the input. No aggregation value is decided.",
+  "note": "NOT decided: equality with a direct computation, bucket arithmetic, float sums, sketch error, term truncation, bucket ordering, segment collectors, final result conversion (values over inputs and partitions).",
+  "technique": "field-sensitive alias + forward taint analysis over MIR places of the merge functions; type-table walk; derived serde impl inspection (field coverage, provenance of constructor operands)",
+ },
 }
 NA = {
  "C13": "quantifies over values returned by arbitrary advance/seek programs on stateful iterators; failures are arithmetic; the only structural statement (wrapper forwarding) is not a necessary condition, so no sound static rule is in reach",
- "C14": "aggregation results are run-time numeric values (bucket arithmetic, float sums, sketches); structural parts are already enforced by derive and the compiler",
 }
 # properties not yet claimed (checks under construction) are listed as not applicable *for now*
 for _p, _why in {}.items():
